@@ -10,7 +10,8 @@ Three families of histories:
   * 'edit'     random well-formed histories (circuit_edit.propose) with extra eliminate / copy / pickle steps, every step observed
   * 'netlist'  a random gate-level circuit of harness/circgen (optionally with permuted creation order: forks before cells,
                a state element last), replayed as Node / Line / io_nodes ops, followed by 1-4 eliminate / copy / pickle steps
-  * 'witness'  the fixed histories of the Coq witness theorems (C10_eliminate_state_order_refuted, C10_copy_view_not_equal)
+  * 'witness'  the fixed histories of the Coq witness theorems (C10_eliminate_state_order_refuted, C10_copy_view_not_equal,
+               C10_eliminate_driverless_fork_kept)
 """
 import re
 
@@ -33,6 +34,7 @@ ORDER_HISTORY = [['node', 'i', 'input'], ['node', 'f', FORK], ['node', 'd1', 'DF
                  ['line', 4, None, 5, None], ['line', 5, None, 3, None], ['io', 0, 0], ['io', 1, 3]]
 ORDER_BEFORE, ORDER_AFTER = ['i', 'o', 'd1', 'd2'], ['i', 'o', 'd2', 'd1']
 TRAILING_NONE_HISTORY = [['node', 'a', 'AND2'], ['node', 'b', 'OR2'], ['line', 0, 1, 1, 0], ['line', 0, 0, 1, 1], ['rmline', 0]]
+STUB_HISTORY = ce.STUB_HISTORY          # C10_eliminate_driverless_fork_kept (Proofs/CircuitElimOrder.v stub_history)
 
 
 def state_first(c):
@@ -125,7 +127,8 @@ def order_kept_oracle(hs):
 
 def witness_histories(rng):
     out = []
-    for name, ops in (('order', ORDER_HISTORY + [['elim']]), ('trailing-none', TRAILING_NONE_HISTORY + [['copy']])):
+    for name, ops in (('order', ORDER_HISTORY + [['elim']]), ('trailing-none', TRAILING_NONE_HISTORY + [['copy']]),
+                      ('stub', STUB_HISTORY + [['elim'], ['elim']])):
         h = run_view_history(rng, 0, fixed_ops=ops)
         h['style'] = 'witness:' + name
         out.append(h)
@@ -145,6 +148,13 @@ def witness_check(hs):
                 msgs.append('order witness: history did not run to the end')
             elif st[-2][1][1] != ORDER_BEFORE or st[-1][1][1] != ORDER_AFTER:
                 msgs.append(f'order witness: s_nodes names {st[-2][1][1]} -> {st[-1][1][1]}, theorem states {ORDER_BEFORE} -> {ORDER_AFTER}')
+        elif h['style'] == 'witness:stub':
+            # the forks s (ins = []) and t (ins = [None]) have one reader and no driver: the call does not raise, removes f and w only
+            if len(st) != len(STUB_HISTORY) + 2 or any(x[1] is None for x in st[-3:]):
+                msgs.append('driverless-fork witness: history did not run to the end (eliminate_1to1_forks raised or was not well-formed use)')
+            elif not (st[-3][1][1] == st[-2][1][1] == st[-1][1][1] == ['i', 'o']) or st[-2][1][0] != st[-1][1][0] \
+                    or st[-3][1][0].count('"__fork__"') != 4 or st[-2][1][0].count('"__fork__"') != 2:
+                msgs.append('driverless-fork witness: the theorem states that f and w are removed, s and t are kept and s_nodes is unchanged')
         else:
             if len(st) != len(TRAILING_NONE_HISTORY) + 1:
                 msgs.append('trailing-none witness: history did not run to the end')
